@@ -52,6 +52,7 @@ type Exec struct {
 	prog      *ssa.Program
 	solver    *IncSolver
 	fpRelaxed bool
+	fpUF      bool
 	unroll    int
 	nextObj   int
 	globals   map[*ssa.Global]int
@@ -697,6 +698,12 @@ func (e *Exec) constVal(c *ssa.Const) Value {
 			return BoolConst(c.Value.String() == "true")
 		case info&types.IsInteger != 0:
 			s := e.sortOf(t)
+			if s.K == SInt {
+				if info&types.IsUnsigned != 0 {
+					return IntConst(int64(c.Uint64()))
+				}
+				return IntConst(c.Int64())
+			}
 			if info&types.IsUnsigned != 0 {
 				return BVConst(c.Uint64(), s.W)
 			}
